@@ -399,6 +399,169 @@ theorem skipMessage_unpackMessage_agree (msg : Bytes) (o1 : Nat) (m : Message) (
                   have := skipResources_agree msg _ _ _ _ _ h1 hb4
                   omega
 
+/-! ## The record-level Parser API under any script -/
+
+theorem walkQuestion_agree (msg : Bytes) (off : Nat) (s : Step) (it : Item) (o1 : Nat) (q : Question) (o2 : Nat)
+    (h1 : walkQuestion msg off s = .ok (it, o1)) (h2 : unpackQuestion msg off = .ok (q, o2)) : o1 = o2 := by
+  cases s <;> simp only [walkQuestion] at h1
+  · rw [h2] at h1; simp at h1; exact h1.2.symm
+  · split at h1
+    · rename_i o hs; simp at h1
+      rw [← h1.2]; exact skipQuestion_unpackQuestion_agree msg off o q o2 hs h2
+    · simp at h1
+  · rw [h2] at h1; simp at h1; exact h1.2.symm
+  · split at h1
+    · rename_i o hs; simp at h1
+      rw [← h1.2]; exact skipQuestion_unpackQuestion_agree msg off o q o2 hs h2
+    · simp at h1
+
+theorem walkResource_agree (msg : Bytes) (off : Nat) (s : Step) (it : Item) (o1 : Nat) (r : Resource) (o2 : Nat)
+    (h1 : walkResource msg off s = .ok (it, o1)) (h2 : unpackResource msg off = .ok (r, o2)) : o1 = o2 := by
+  cases s <;> simp only [walkResource] at h1
+  · rw [h2] at h1; simp at h1; exact h1.2.symm
+  · split at h1
+    · rename_i o hs; simp at h1
+      rw [← h1.2]; exact skipResource_unpackResource_agree msg off o r o2 hs h2
+    · simp at h1
+  · unfold unpackResource at h2
+    split at h1
+    · simp at h1
+    · rename_i h oh hh
+      rw [hh] at h2
+      simp only [] at h2
+      split at h1
+      · simp at h1
+      · rename_i b hb
+        rw [hb] at h2
+        simp at h1 h2
+        omega
+  · unfold unpackResource at h2
+    split at h1
+    · simp at h1
+    · rename_i h oh hh
+      rw [hh] at h2
+      simp only [] at h2
+      split at h1
+      · rename_i o hs
+        unfold skipAfterHeader at hs
+        split at hs
+        · simp at hs
+        · simp at hs
+          split at h2
+          · simp at h2
+          · simp at h1 h2
+            omega
+      · simp at h1
+
+theorem walkQuestions_agree (msg : Bytes) : ∀ (n off : Nat) (sc : List Step) (its : List Item) (o1 : Nat)
+    (sc' : List Step) (qs : List Question) (o2 : Nat),
+    walkSection walkQuestion msg n off sc = .ok (its, o1, sc') →
+    unpackQuestions msg n off = .ok (qs, o2) → o1 = o2 := by
+  intro n
+  induction n with
+  | zero => intro off sc its o1 sc' qs o2 h1 h2; simp [walkSection] at h1; simp [unpackQuestions] at h2; omega
+  | succ n ih =>
+    intro off sc its o1 sc' qs o2 h1 h2
+    unfold walkSection at h1
+    unfold unpackQuestions at h2
+    split at h1
+    · simp at h1
+    · rename_i it a ha
+      split at h2
+      · simp at h2
+      · rename_i q b hb
+        have := walkQuestion_agree msg off _ it a q b ha hb
+        subst this
+        split at h1
+        · simp at h1
+        · rename_i its' a' sc'' ha'
+          split at h2
+          · simp at h2
+          · rename_i qs' b' hb'
+            simp at h1 h2
+            have := ih _ _ _ _ _ _ _ ha' hb'
+            omega
+
+theorem walkResources_agree (msg : Bytes) : ∀ (n off : Nat) (sc : List Step) (its : List Item) (o1 : Nat)
+    (sc' : List Step) (rs : List Resource) (o2 : Nat),
+    walkSection walkResource msg n off sc = .ok (its, o1, sc') →
+    unpackResources msg n off = .ok (rs, o2) → o1 = o2 := by
+  intro n
+  induction n with
+  | zero => intro off sc its o1 sc' rs o2 h1 h2; simp [walkSection] at h1; simp [unpackResources] at h2; omega
+  | succ n ih =>
+    intro off sc its o1 sc' rs o2 h1 h2
+    unfold walkSection at h1
+    unfold unpackResources at h2
+    split at h1
+    · simp at h1
+    · rename_i it a ha
+      split at h2
+      · simp at h2
+      · rename_i r b hb
+        have := walkResource_agree msg off _ it a r b ha hb
+        subst this
+        split at h1
+        · simp at h1
+        · rename_i its' a' sc'' ha'
+          split at h2
+          · simp at h2
+          · rename_i rs' b' hb'
+            simp at h1 h2
+            have := ih _ _ _ _ _ _ _ ha' hb'
+            omega
+
+/-- **Any mixture of parsing, skipping, header+typed-body and header+skip** over the records of a
+message ends at the same offset as `Message.Unpack`, whenever both succeed. -/
+theorem walkMessage_unpackMessage_agree (msg : Bytes) (sc : List Step) (its : List Item) (o1 : Nat)
+    (m : Message) (o2 : Nat)
+    (h1 : walkMessage msg sc = .ok (its, o1)) (h2 : unpackMessageOff msg = .ok (m, o2)) : o1 = o2 := by
+  unfold walkMessage at h1
+  unfold unpackMessageOff at h2
+  split at h1
+  · simp at h1
+  · rename_i w hw
+    simp only [hw] at h2
+    split at h1
+    · simp at h1
+    · rename_i i1 a1 s1 ha1
+      split at h2
+      · simp at h2
+      · rename_i qs b1 hb1
+        have e1 := walkQuestions_agree msg _ _ _ _ _ _ _ _ ha1 hb1
+        subst e1
+        split at h1
+        · simp at h1
+        · rename_i i2 a2 s2 ha2
+          split at h2
+          · simp at h2
+          · rename_i an b2 hb2
+            have e2 := walkResources_agree msg _ _ _ _ _ _ _ _ ha2 hb2
+            subst e2
+            split at h1
+            · simp at h1
+            · rename_i i3 a3 s3 ha3
+              split at h2
+              · simp at h2
+              · rename_i au b3 hb3
+                have e3 := walkResources_agree msg _ _ _ _ _ _ _ _ ha3 hb3
+                subst e3
+                split at h1
+                · simp at h1
+                · rename_i i4 a4 s4 ha4
+                  split at h2
+                  · simp at h2
+                  · rename_i ad b4 hb4
+                    simp at h1 h2
+                    have := walkResources_agree msg _ _ _ _ _ _ _ _ ha4 hb4
+                    omega
+
+/-- With the all-parse script the record-level API is `Message.Unpack` (same offset). -/
+theorem walkMessage_parse_offset (msg : Bytes) (m : Message) (o : Nat)
+    (h : unpackMessageOff msg = .ok (m, o)) (its : List Item) (o' : Nat)
+    (hw : walkMessage msg [] = .ok (its, o')) : o' = o :=
+  walkMessage_unpackMessage_agree msg [] its o' m o hw h
+
 /-! ## Every loop of the reader terminates -/
 
 /-- **`Message.Unpack` terminates on every input**: none of the fuelled loops of the model
